@@ -761,7 +761,7 @@ pub fn c03_triple(chk: &Check, s: u8, d1: u8, d2: u8) {
 }
 
 pub fn run_c03_sweep(chk: &Check) {
-    chk.rule("all 2^21 valid triples x 5 representations {Raw, Structured converted from it, Foreign3 (three getters only), ForeignBytes (overrides to_bytes), ForeignStrict (overrides from_bytes to refuse the undefined status bytes)}: all 20 trait methods compared; to_other/from_other between all 25 ordered pairs commute with every accessor; only permitted difference: Structured reports canonical bytes. non-trivial = distinct triples on which at least one representation legitimately differs in bytes (canonicalisation) or that carry data fields");
+    chk.rule("all 2^21 valid triples x 5 representations {Raw, Structured converted from it, Foreign3 (three getters only), ForeignBytes (overrides to_bytes), ForeignStrict (overrides from_bytes to refuse the undefined status bytes)}: all 20 trait methods compared; to_other/from_other between all 25 ordered pairs commute with every accessor; only permitted difference: Structured reports canonical bytes; history independence: every ordered pair of (status byte x 4 data combinations) taken through all of this back to back on one thread. non-trivial = distinct triples on which at least one representation legitimately differs in bytes (canonicalisation) or that carry data fields");
     let nontrivial = AtomicU64::new(0);
     (0x80..=0xFFu8).into_par_iter().for_each(|s| {
         let mut nt = 0u64;
@@ -778,6 +778,22 @@ pub fn run_c03_sweep(chk: &Check) {
         chk.add_eval(128 * 128 * 4 * 9);
     });
     chk.add_nontrivial(nontrivial.load(Ordering::Relaxed));
+    // History independence of the conversions (round nine, C03-h1: a per-thread memo of the last
+    // decode whose key drops status bits): every ordered pair of (status byte x 4 data combinations),
+    // both triples taken through all representations and conversions back to back on one thread.
+    let data = [(0u8, 0u8), (1, 127), (127, 1), (64, 64)];
+    (0x80..=0xFFu8).into_par_iter().for_each(|s1| {
+        for &(a1, a2) in &data {
+            for s2 in 0x80..=0xFFu8 {
+                for &(b1, b2) in &data {
+                    c03_triple(chk, s1, a1, a2);
+                    c03_triple(chk, s2, b1, b2);
+                }
+            }
+        }
+        chk.add_eval(4 * 128 * 4 * 2 * 4 * 9);
+    });
+    chk.push("ordered_pairs", json!({"status_bytes": 128, "data_combinations": 4, "pairs": 128 * 4 * 128 * 4}));
     chk.sample(json!({"triple": [0xD2, 5, 99], "representations": ["Raw (0xD2,5,99)", "Structured ChannelPressure{2,5} bytes (0xD2,5,0)", "Foreign3", "ForeignBytes"], "compared": "20 methods, 16 ordered conversions"}));
 }
 
